@@ -22,9 +22,9 @@ PROPS = {
         "rule": "compare: ordered scalar pairs by relation class (equal, same value in the other domain, adjacent, one canonical limb "
                 "changed, one Montgomery limb changed, random) from the boundary-biased scalar generator; non-trivial = the two values "
                 "differ. cselect: condition words from {0,1,2,3,4,0xff,2^31,2^32,2^63,2^64-1,...} or uniform, operands in both domains, "
-                "nil operands, receiver aliasing an operand; non-trivial = cond not in {0,1}, u != v, no nil. Distinct: by case hash. Additional relations: several canonical words perturbed (64/32-bit), the same value once plain and once as the result of an arithmetic operation (equal-computed); fixed cases: all ordered pairs of the 256 values with limbs in {0,1,2^63,2^64-1}, in both domains.",
+                "nil operands, receiver aliasing an operand; non-trivial = cond not in {0,1}, u != v, no nil. Distinct: by case hash. Additional relations: several canonical words perturbed (64/32-bit), the same value once plain and once as the result of an arithmetic operation (equal-computed); fixed cases: all ordered pairs of the 256 values with limbs in {0,1,2^63,2^64-1}, in both domains. after-failed-call: a scalar object whose last call failed (rejected 32-byte input in [n, 2^256) through the three decoders, CSelect with a nil operand) is compared with a fresh scalar holding the value it encodes to and with an unrelated scalar; all cases non-trivial.",
         "units": [unit("props", "^TestC13", tier(800000, 8, 900), tier(16000000, 16, 5400))],
-        "checks_expected": ["C13/compare", "C13/cselect"],
+        "checks_expected": ["C13/compare", "C13/cselect", "C13/after-failed-call"],
     },
     "C06": {
         "rule": "cases (op, s, t, alias, nil, u64): op from {add,sub,mul,square,invert,pow,setuint64,zero,one,minusone,set,copy}; "
